@@ -167,6 +167,14 @@ pub fn run() -> i32 {
         } }
         let w45 = word_space(&inventory(4), 5);
         run_box(&mut r, "T5: full IN/OUT table, c=1, W(I4,5)", q, &w45);
+        // the property's word bound: up to 6 segments (I3), one item per side, reduced IN/OUT table
+        let w36 = word_space(&inventory(3), 6);
+        let mut t6 = vec![];
+        for (i, o) in &io { for e in &e1 {
+            t6.push(BasicRule { input: i.clone(), output: o.clone(), context: vec![e.clone()], except: vec![] });
+            t6.push(BasicRule { input: i.clone(), output: o.clone(), context: vec![], except: vec![e.clone()] });
+        } }
+        run_box(&mut r, "T6: c=1 context / exception, W(I3,6)", t6, &w36);
     }
     r.finish()
 }
